@@ -590,9 +590,233 @@ def entry_point(header):
     return ["scheduler(thread_pool&)", "start(thread_pool&)"][v]
 
 
+def cb_spec(w):
+    """cbs <tp> <id> s <tp2> <id2> | cbs <tp> <id> c <id2>  ->  ('s', tp2, id2) | ('c', id2)"""
+    if len(w) > 3 and w[3] == "c":
+        return ("c", int(w[4]))
+    return ("s", int(w[4]), int(w[5]))
+
+
+def cbs_line(rng, tp, ident, clock, span, nid):
+    """a sleep whose completion callback re-arms a timer (also in the past / at the same time point) or cancels an identifier"""
+    if rng.random() < 0.55:
+        tp2 = max(0, clock - rng.randint(0, 3)) if rng.random() < 0.15 else rng.choice([tp, tp + rng.randint(0, span), clock + rng.randint(0, span)])
+        return "cbs %d %d s %d %d" % (tp, ident, tp2, rng.randint(0, nid))
+    return "cbs %d %d c %d" % (tp, ident, rng.randint(0, nid))
+
+
+def mt_oracle(case, out, step):
+    """C12 evaluated on a thread / thread-pool trace (virtual clock), `step`: the worker is advanced one lock region at a time.
+    Relational: a multiset of pending sleeps (those made by the main thread, key k, and those made by completion callbacks
+    that call the scheduler again, key ('c', k)); within one output line the order of the worker's actions is not assumed."""
+    msgs = []
+
+    def bad(cat, txt):
+        msgs.append("%s: %s" % (cat, txt))
+
+    def name(key):
+        return "cs#%d" % key[1] if isinstance(key, tuple) else "sleep#%d" % key
+
+    ops = [l for l in case["lines"][1:] if l.split()]
+    pend = {}        # key -> (tp, id, clock when scheduled)
+    spec = {}        # k -> what the completion callback of sleep#k does
+    fired = {}       # k -> index of the line on which sleep#k completed (its callback has been started)
+    reported = set() # k whose callback has returned
+    watch = {}       # k (callback cancels id2) -> sleeps carrying id2 that were pending before sleep#k completed
+    pool = {}        # id -> completions with await_canceled_exception not yet accounted for by a cancel() == true
+    clock = 0
+    nsleep = 0
+    freed = None     # clock at which the stepping ended (step mode)
+    for li, (op, line) in enumerate(zip(ops, out)):
+        w = op.split()
+        head, evs = parse_line(line)
+        if head and head[0] == "FATAL":
+            bad("hang", " ".join(head[1:]))
+            break
+        status = None
+        if head and head[-1].startswith("w="):
+            status = head[-1][2:]
+            head = head[:-1]
+        last = w[0] in ("end", "destroy")
+        comps, cbevs = [], []
+        for e in evs:
+            m = re.match(r"(sleep|cs)#(\d+)=([^@]*)@(\d+)$", e)
+            if m:
+                k = int(m.group(2))
+                comps.append((k if m.group(1) == "sleep" else ("c", k), m.group(3), int(m.group(4))))
+                continue
+            m = re.match(r"cb([sc])#(\d+)=([^@]*)@(\d+)$", e)
+            if m:
+                cbevs.append((m.group(1), int(m.group(2)), m.group(3), int(m.group(4))))
+                continue
+            bad("protocol", "unparsable event %s" % e)
+        start_pend = dict(pend)
+        mine = None          # the completion that is the main thread's own cancel / remove
+        if w[0] in ("sleep", "sched", "cbs"):
+            m = re.match(r"sleep#(\d+)$", head[0])
+            if not m or int(m.group(1)) != nsleep:
+                bad("protocol", "unexpected sleep index in `%s`" % line)
+                break
+            pend[nsleep] = (int(w[1]), int(w[2]), clock)
+            if w[0] == "cbs":
+                spec[nsleep] = cb_spec(w)
+            nsleep += 1
+        elif w[0] in ("cancel", "cancelx", "remove"):
+            ident = int(w[1])
+            want = "canceled" if w[0] == "cancel" else ("exc:%s" % w[2] if w[0] == "cancelx" else "ok")
+            cands = [k for k, (tp, i, t) in pend.items() if i == ident]
+            hit = [c for c in comps if c[0] in cands and c[1] == want]
+            if cands:
+                if head[1] != "1":
+                    bad("cancel-miss", "%s(%d) reported false although %s is pending with that identifier"
+                        % (w[0], ident, [name(k) for k in cands]))
+                elif not hit:
+                    bad("cancel-count", "%s(%d) reported true but completed no sleep with that identifier" % (w[0], ident))
+                elif len(hit) != 1 and w[0] == "cancelx":
+                    bad("cancel-count", "%s(%d) completed %d sleeps with that identifier, expected exactly one" % (w[0], ident, len(hit)))
+                if hit and head[1] == "1":
+                    mine = hit[0]
+            elif head[1] != "0":
+                bad("cancel-false", "%s(%d) reported true with nothing pending under that identifier" % (w[0], ident))
+        elif w[0] == "dump":
+            live = sorted(x.rsplit(":", 1)[0] for x in head[2:] if x.endswith(":1"))
+            want = sorted("%d:%d" % (tp, i) for (tp, i, t) in pend.values())
+            if live != want:
+                bad("state", "live entries of the vector %s differ from the pending sleeps %s" % (live, want))
+        elif w[0] == "adv" and step:
+            clock = max(clock, int(w[1]))
+        elif w[0] == "free" and freed is None:
+            freed = clock
+        # sleeps made by callbacks that returned on this line exist before they can complete
+        for (kind, k, r, c) in cbevs:
+            if k not in spec or spec[k][0] != kind or (k not in fired and k not in [x[0] for x in comps]):
+                bad("protocol", "callback event cb%s#%d without a completed sleep#%d of that kind" % (kind, k, k))
+                continue
+            if k in reported:
+                bad("duplicate", "the completion callback of sleep#%d ran twice" % k)
+                continue
+            reported.add(k)
+            if kind == "s":
+                pend[("c", k)] = (spec[k][1], spec[k][2], c)
+        bag = {}             # completions with await_canceled_exception on the last line, by identifier
+        for comp in comps:
+            key, o, c = comp
+            if key not in pend:
+                bad("duplicate", "%s completed (%s) but is not pending: completed twice or never scheduled" % (name(key), o))
+                continue
+            tp, ident, t0 = pend.pop(key)
+            if key in spec and not last:
+                fired[key] = li
+                if spec[key][0] == "c":
+                    watch[key] = {k for k, (tp2, i2, t2) in start_pend.items() if i2 == spec[key][1] and k != key}
+            if last:
+                if o != "canceled":
+                    bad("outcome", "%s pending at destruction completed with %s" % (name(key), o))
+                bag[ident] = bag.get(ident, 0) + 1
+            elif comp is mine:
+                pass
+            elif o == "ok":
+                if c < tp:
+                    bad("early", "%s until %d completed at %d" % (name(key), tp, c))
+                elif not step and c != max(tp, t0):
+                    bad("late", "%s until %d (scheduled at %d) was completed by the idle worker at %d" % (name(key), tp, t0, c))
+                elif step and freed is not None and c != max(tp, t0, freed):
+                    bad("late", "%s until %d (scheduled at %d, worker running freely since %d) was completed at %d"
+                        % (name(key), tp, t0, freed, c))
+            elif o == "canceled":
+                pool[ident] = pool.get(ident, 0) + 1
+            else:
+                bad("outcome", "%s completed with %s during `%s`" % (name(key), o, op))
+        # a callback's cancel(id): true <-> exactly one pending sleep carrying id completed with await_canceled_exception
+        for (kind, k, r, c) in cbevs:
+            if kind != "c" or k not in spec or spec[k][0] != "c":
+                continue
+            ident = spec[k][1]
+            if r == "1":
+                if pool.get(ident, 0) > 0:
+                    pool[ident] -= 1
+                elif bag.get(ident, 0) > 0:
+                    bag[ident] -= 1
+                else:
+                    bad("cancel-false", "cancel(%d) called by the callback of sleep#%d reported true but no sleep with that "
+                        "identifier was cancelled" % (ident, k))
+            else:
+                still = sorted(name(x) for x in watch.get(k, ()) if x in pend)
+                if still:
+                    bad("cancel-miss", "cancel(%d) called by the callback of sleep#%d reported false although %s was pending "
+                        "with that identifier all along" % (ident, k, still))
+        if not step or last:
+            left = {i: n for i, n in pool.items() if n > 0}
+            if left:
+                bad("outcome", "sleeps with identifiers %s completed with await_canceled_exception during `%s` although no "
+                    "cancel() reported true for them" % (sorted(left), op))
+                pool.clear()
+        if w[0] == "adv" and not step:
+            clock = max(clock, int(w[1]))
+        if not step or freed is not None:
+            if w[0] == "adv":
+                late = [name(k) for k, (tp, i, t) in pend.items() if tp <= clock]
+                if late:
+                    bad("late", "at clock %d the sleeps %s are due but still pending" % (clock, late))
+        # the invariant of c12_worker_not_late observed on the real worker: parked => its deadline is not later than
+        # any pending sleep (an earlier sleep scheduled meanwhile - also by a callback - must have woken it)
+        if status is not None and status.startswith("parked:"):
+            d = INF if status == "parked:max" else int(status[7:])
+            stale = sorted((name(k) for k, (tp, i, t) in pend.items() if tp < d))
+            if stale:
+                bad("late", "the worker is parked in wait_until(%s) although %s with an earlier time point is pending: "
+                    "it will be woken late%s" % (status[7:], stale, " or never" if d == INF else ""))
+        elif status == "gone" and not last:
+            bad("hang", "the worker is neither running nor parked")
+        if last:
+            lost = sorted(k for k in fired if k not in reported)
+            if lost:
+                bad("hang", "the completion callbacks of sleeps %s never returned from their call of the scheduler" % lost)
+            if pend:
+                bad("hang", "sleeps %s are still pending after the scheduler was destroyed" % sorted(map(name, pend)))
+            break
+    return msgs
+
+
+def cb_stats(cases, outs):
+    """how often a completion callback (make_promise) called the scheduler again, and from which thread"""
+    st = {"cbs_ops": 0, "callbacks_run_by_worker": 0, "callbacks_run_by_caller_of_cancel_or_remove": 0,
+          "callback_rearmed_timer": 0, "callback_cancel_true": 0, "callback_cancel_false": 0, "cases_with_worker_callback": 0}
+    for c in cases:
+        ops = [x for x in c["lines"][1:] if x.split()]
+        cbk = set()
+        seen = False
+        for op, l in zip(ops, outs.get(str(c["id"]), [])):
+            w = op.split()
+            head, evs = parse_line(l)
+            if w[0] == "cbs" and head:
+                st["cbs_ops"] += 1
+                m = re.match(r"sleep#(\d+)$", head[0])
+                if m:
+                    cbk.add(int(m.group(1)))
+            if w[0] in ("end", "destroy"):
+                continue
+            for e in evs:
+                m = re.match(r"sleep#(\d+)=([^@]*)@", e)
+                if m and int(m.group(1)) in cbk:
+                    if m.group(2) == "ok" and w[0] != "remove":
+                        st["callbacks_run_by_worker"] += 1
+                        seen = True
+                    else:
+                        st["callbacks_run_by_caller_of_cancel_or_remove"] += 1
+                elif e.startswith("cbs#"):
+                    st["callback_rearmed_timer"] += 1
+                elif e.startswith("cbc#"):
+                    st["callback_cancel_true" if "=1@" in e else "callback_cancel_false"] += 1
+        st["cases_with_worker_callback"] += seen
+    return st
+
+
 class ThreadSuite(Suite):
     """thread mode (scheduler(std::thread&)) and thread-pool mode (scheduler(thread_pool&)) with real threads under
-    virtual time: the main thread acts while the worker is parked, `adv t` moves the clock from deadline to deadline"""
+    virtual time: the main thread acts while the worker is parked, `adv t` moves the clock from deadline to deadline;
+    `cbs` schedules a promise whose awaiter is a make_promise callback that calls the scheduler again (sleep_until /
+    cancel) from the thread that resolves it - for an expiring sleep that is the worker, inside its iteration"""
     name = "thread-and-pool-virtual-time"
     harness = HARNESS
     driver = "drv_c12"
@@ -608,11 +832,15 @@ class ThreadSuite(Suite):
         span = rng.choice([3, 8, 20])
         clock = 0
         p_sleep = rng.choice([0.35, 0.5, 0.65])
+        p_cb = rng.choice([0, 0, 0.15, 0.3, 0.6])     # share of the sleeps whose awaiter is a callback that re-enters
         for k in range(rng.randint(4, 40)):
             r = rng.random()
             if r < p_sleep:
                 tp = max(0, clock - rng.randint(0, 3)) if rng.random() < 0.12 else clock + rng.randint(0, span)
-                lines.append("%s %d %d" % ("sleep" if rng.random() < 0.85 else "sched", tp, rng.randint(0, nid)))
+                if rng.random() < p_cb:
+                    lines.append(cbs_line(rng, tp, rng.randint(0, nid), clock, span, nid))
+                else:
+                    lines.append("%s %d %d" % ("sleep" if rng.random() < 0.85 else "sched", tp, rng.randint(0, nid)))
                 continue
             r = rng.random()
             if r < 0.40:
@@ -638,86 +866,7 @@ class ThreadSuite(Suite):
         return [self.gen_case(rng) for _ in range(n)]
 
     def oracle(self, case, out):
-        msgs = []
-
-        def bad(cat, txt):
-            msgs.append("%s: %s" % (cat, txt))
-
-        ops = [l for l in case["lines"][1:] if l.split()]
-        pend = {}      # k -> (tp, id, clock when scheduled)
-        clock = 0
-        nsleep = 0
-        for op, line in zip(ops, out):
-            w = op.split()
-            head, evs = parse_line(line)
-            if head and head[0] == "FATAL":
-                bad("hang", " ".join(head[1:]))
-                break
-            parsed = []
-            for e in evs:
-                m = re.match(r"sleep#(\d+)=([^@]*)@(\d+)$", e)
-                if not m:
-                    bad("protocol", "unparsable event %s" % e)
-                    continue
-                parsed.append((int(m.group(1)), m.group(2), int(m.group(3))))
-            cancelled_here = None
-            if w[0] in ("sleep", "sched"):
-                m = re.match(r"sleep#(\d+)$", head[0])
-                if not m or int(m.group(1)) != nsleep:
-                    bad("protocol", "unexpected sleep index in `%s`" % line)
-                    break
-                pend[nsleep] = (int(w[1]), int(w[2]), clock)
-                nsleep += 1
-            elif w[0] in ("cancel", "cancelx", "remove"):
-                ident = int(w[1])
-                want = "canceled" if w[0] == "cancel" else ("exc:%s" % w[2] if w[0] == "cancelx" else "ok")
-                cands = [k for k, (tp, i, t) in pend.items() if i == ident]
-                hit = [(k, o, c) for (k, o, c) in parsed if k in cands and o == want]
-                if cands:
-                    if head[1] != "1":
-                        bad("cancel-miss", "%s(%d) reported false although sleep#%s is pending with that identifier" % (w[0], ident, cands))
-                    if len(hit) != 1 and w[0] != "remove":
-                        bad("cancel-count", "%s(%d) completed %d sleeps with that identifier, expected exactly one" % (w[0], ident, len(hit)))
-                    if hit:
-                        cancelled_here = hit[0][0]
-                else:
-                    if head[1] != "0":
-                        bad("cancel-false", "%s(%d) reported true with nothing pending under that identifier" % (w[0], ident))
-            elif w[0] == "dump":
-                live = sorted(x.rsplit(":", 1)[0] for x in head[2:] if x.endswith(":1"))
-                want = sorted("%d:%d" % (tp, i) for (tp, i, t) in pend.values())
-                if live != want:
-                    bad("state", "live entries of the vector %s differ from the pending sleeps %s" % (live, want))
-            for (k, o, c) in parsed:
-                if k not in pend:
-                    bad("duplicate", "sleep#%d completed (%s) but is not pending: completed twice or never scheduled" % (k, o))
-                    continue
-                tp, ident, t0 = pend.pop(k)
-                if w[0] in ("end", "destroy"):
-                    if o != "canceled":
-                        bad("outcome", "sleep#%d pending at destruction completed with %s" % (k, o))
-                elif k == cancelled_here:
-                    pass
-                elif o == "ok":
-                    if w[0] == "remove" and ident == int(w[1]) and cancelled_here is None and head[1] == "1":
-                        cancelled_here = k      # the promise remove() handed back, resolved by the harness
-                        continue
-                    if c < tp:
-                        bad("early", "sleep#%d until %d completed at %d" % (k, tp, c))
-                    elif c != max(tp, t0):
-                        bad("late", "sleep#%d until %d (scheduled at %d) was completed by the idle worker at %d" % (k, tp, t0, c))
-                else:
-                    bad("outcome", "sleep#%d completed with %s during `%s`" % (k, o, op))
-            if w[0] == "adv":
-                clock = max(clock, int(w[1]))
-                late = [k for k, (tp, i, t) in pend.items() if tp <= clock]
-                if late:
-                    bad("late", "at clock %d the sleeps %s are due but still pending" % (clock, late))
-            if w[0] in ("end", "destroy"):
-                if pend:
-                    bad("hang", "sleeps %s are still pending after the scheduler was destroyed" % sorted(pend))
-                break
-        return msgs
+        return mt_oracle(case, out, step=False)
 
     def nontrivial(self, case, out):
         clocks = set()
@@ -751,13 +900,16 @@ class ThreadSuite(Suite):
                     st["not_notified"] += 1
                 if l.startswith(("end", "destroy")):
                     st["dropped_at_destroy"] += l.count("=canceled@")
+        st["reentrant_callbacks"] = cb_stats(cases, outs)
         return st
 
 
 class StepSuite(ThreadSuite):
     """interleavings at lock-region granularity, thread mode and thread-pool mode: every acquisition of the scheduler
     mutex by the worker is a stall point, `w` lets it run one lock region, public calls (sleep / cancel / remove / adv /
-    destroy) run in between; `free` ends the stepping and the worker runs to its wait as in the thread suite"""
+    destroy) run in between; `free` ends the stepping and the worker runs to its wait as in the thread suite.  A callback
+    awaiter that calls the scheduler again (`cbs`) stalls the worker inside its resolution, in front of the mutex it has
+    released: that call is a lock region of its own"""
     name = "worker-lock-regions"
     corpus_prefix = "c12step_"
     chunk = 25
@@ -770,7 +922,9 @@ class StepSuite(ThreadSuite):
         out = []
         injects = [["sleep 5 2"], ["cancel 1"], ["sleep 3 2", "adv 4"], ["sleep 12 2"], ["adv 10"], []]
         for kind in self.KINDS:
-            for base in ([], ["sleep 10 1"], ["sleep 10 1", "sleep 20 3"]):
+            for base in ([], ["sleep 10 1"], ["sleep 10 1", "sleep 20 3"],
+                         # the awaiter is a callback that re-arms the timer / cancels the other sleeper / chains
+                         ["cbs 0 1 s 6 1"], ["cbs 0 1 c 3", "sleep 20 3"], ["cbs 0 1 c 3", "cbs 20 3 s 2 2"]):
                 for k in range(0, 7):
                     for inj in injects:
                         for tail in (["w"] * 4 + ["free", "adv 30"], ["w"] * 2, ["w"] * 3 + ["sleep 1 4", "w", "w", "free", "adv 30"]):
@@ -784,6 +938,7 @@ class StepSuite(ThreadSuite):
         clock = 0
         freed = False
         p_w = rng.choice([0.3, 0.45, 0.6])
+        p_cb = rng.choice([0, 0, 0.2, 0.4, 0.7])
         for k in range(rng.randint(4, 45)):
             r = rng.random()
             if not freed and r < p_w:
@@ -792,7 +947,10 @@ class StepSuite(ThreadSuite):
             r = rng.random()
             if r < 0.45:
                 tp = max(0, clock - rng.randint(0, 3)) if rng.random() < 0.12 else clock + rng.randint(0, span)
-                lines.append("%s %d %d" % ("sleep" if rng.random() < 0.85 else "sched", tp, rng.randint(0, nid)))
+                if rng.random() < p_cb:
+                    lines.append(cbs_line(rng, tp, rng.randint(0, nid), clock, span, nid))
+                else:
+                    lines.append("%s %d %d" % ("sleep" if rng.random() < 0.85 else "sched", tp, rng.randint(0, nid)))
             elif r < 0.62:
                 clock += rng.randint(0, span)
                 lines.append("adv %d" % clock)
@@ -824,106 +982,12 @@ class StepSuite(ThreadSuite):
         return sysm + [self.gen_case(rng) for _ in range(n)]
 
     def oracle(self, case, out):
-        msgs = []
-
-        def bad(cat, txt):
-            msgs.append("%s: %s" % (cat, txt))
-
-        ops = [l for l in case["lines"][1:] if l.split()]
-        pend = {}      # k -> (tp, id, clock when scheduled)
-        clock = 0
-        nsleep = 0
-        freed = None   # clock at which the stepping ended
-        for op, line in zip(ops, out):
-            w = op.split()
-            head, evs = parse_line(line)
-            if head and head[0] == "FATAL":
-                bad("hang", " ".join(head[1:]))
-                break
-            status = None
-            if head and head[-1].startswith("w="):
-                status = head[-1][2:]
-                head = head[:-1]
-            parsed = []
-            for e in evs:
-                m = re.match(r"sleep#(\d+)=([^@]*)@(\d+)$", e)
-                if not m:
-                    bad("protocol", "unparsable event %s" % e)
-                    continue
-                parsed.append((int(m.group(1)), m.group(2), int(m.group(3))))
-            cancelled_here = None
-            if w[0] in ("sleep", "sched"):
-                m = re.match(r"sleep#(\d+)$", head[0])
-                if not m or int(m.group(1)) != nsleep:
-                    bad("protocol", "unexpected sleep index in `%s`" % line)
-                    break
-                pend[nsleep] = (int(w[1]), int(w[2]), clock)
-                nsleep += 1
-            elif w[0] in ("cancel", "cancelx", "remove"):
-                ident = int(w[1])
-                want = "canceled" if w[0] == "cancel" else ("exc:%s" % w[2] if w[0] == "cancelx" else "ok")
-                cands = [k for k, (tp, i, t) in pend.items() if i == ident]
-                hit = [(k, o, c) for (k, o, c) in parsed if k in cands and o == want]
-                if cands:
-                    if head[1] != "1":
-                        bad("cancel-miss", "%s(%d) reported false although sleep#%s is pending with that identifier" % (w[0], ident, cands))
-                    if len(hit) != 1:
-                        bad("cancel-count", "%s(%d) completed %d sleeps with that identifier, expected exactly one" % (w[0], ident, len(hit)))
-                    if hit:
-                        cancelled_here = hit[0][0]
-                elif head[1] != "0":
-                    bad("cancel-false", "%s(%d) reported true with nothing pending under that identifier" % (w[0], ident))
-            elif w[0] == "dump":
-                live = sorted(x.rsplit(":", 1)[0] for x in head[2:] if x.endswith(":1"))
-                want = sorted("%d:%d" % (tp, i) for (tp, i, t) in pend.values())
-                if live != want:
-                    bad("state", "live entries of the vector %s differ from the pending sleeps %s" % (live, want))
-            elif w[0] == "adv":
-                clock = max(clock, int(w[1]))
-            elif w[0] == "free" and freed is None:
-                freed = clock
-            for (k, o, c) in parsed:
-                if k not in pend:
-                    bad("duplicate", "sleep#%d completed (%s) but is not pending: completed twice or never scheduled" % (k, o))
-                    continue
-                tp, ident, t0 = pend.pop(k)
-                if w[0] in ("end", "destroy"):
-                    if o != "canceled":
-                        bad("outcome", "sleep#%d pending at destruction completed with %s" % (k, o))
-                elif k == cancelled_here:
-                    pass
-                elif o == "ok":
-                    if c < tp:
-                        bad("early", "sleep#%d until %d completed at %d" % (k, tp, c))
-                    elif freed is not None and c != max(tp, t0, freed):
-                        bad("late", "sleep#%d until %d (scheduled at %d, worker running freely since %d) was completed at %d"
-                            % (k, tp, t0, freed, c))
-                else:
-                    bad("outcome", "sleep#%d completed with %s during `%s`" % (k, o, op))
-            # the invariant of c12_worker_not_late observed on the real worker: parked => its deadline is not later than
-            # any pending sleep (an earlier sleep scheduled meanwhile must have woken it)
-            if status is not None and status.startswith("parked:"):
-                d = INF if status == "parked:max" else int(status[7:])
-                stale = sorted(k for k, (tp, i, t) in pend.items() if tp < d)
-                if stale:
-                    bad("late", "the worker is parked in wait_until(%s) although sleep#%s with an earlier time point (%s) is pending: "
-                        "it will be woken late%s" % (status[7:], stale, [pend[k][0] for k in stale], " or never" if d == INF else ""))
-            elif status == "gone" and w[0] not in ("end", "destroy"):
-                bad("hang", "the worker is neither running nor parked")
-            if w[0] == "adv" and freed is not None:
-                late = [k for k, (tp, i, t) in pend.items() if tp <= clock]
-                if late:
-                    bad("late", "at clock %d the sleeps %s are due but still pending" % (clock, late))
-            if w[0] in ("end", "destroy"):
-                if pend:
-                    bad("hang", "sleeps %s are still pending after the scheduler was destroyed" % sorted(pend))
-                break
-        return msgs
+        return mt_oracle(case, out, step=True)
 
     def nontrivial(self, case, out):
         seen_lock_call = False
         for op, l in zip([x for x in case["lines"][1:] if x.split()], out):
-            if op.split()[0] in ("sleep", "sched", "cancel", "cancelx", "remove", "adv") and l.split(" ; ")[0].endswith("w=lock"):
+            if op.split()[0] in ("sleep", "sched", "cbs", "cancel", "cancelx", "remove", "adv") and l.split(" ; ")[0].endswith("w=lock"):
                 seen_lock_call = True
             if seen_lock_call and "w=parked" in l:
                 return True
@@ -945,11 +1009,12 @@ class StepSuite(ThreadSuite):
                 h = l.split(" ; ")[0]
                 if k == "w":
                     st["worker_steps"] += 1
-                elif k in ("sleep", "sched", "cancel", "cancelx", "remove", "adv"):
+                elif k in ("sleep", "sched", "cbs", "cancel", "cancelx", "remove", "adv"):
                     st["calls_while_worker_at_mutex"] += h.endswith("w=lock")
                     st["calls_while_worker_parked"] += "w=parked" in h
                 st["parked_observations"] += "w=parked" in h
                 st["woken_by_worker"] += l.count("=ok@")
+        st["reentrant_callbacks"] = cb_stats(cases, outs)
         return st
 
 
@@ -1005,27 +1070,31 @@ class C12(Spec):
         "scheduler model with a FIFO ready queue for start(awaitable)",
     ]
     level_text = ("Lean 4 theorems over an executable model of cocls::scheduler (vector in array order with cancelled entries left in "
-                  "place, one step per lock region, worker iterations as poll/wake steps, interval()'s stop callback as a lock program): "
+                  "place, one step per lock region, worker iterations as poll/wake steps, interval()'s stop callback and the worker's "
+                  "loop body as lock programs: the worker resolves an expired promise with the mutex released, so an awaiter that is a "
+                  "callback may call schedule()/cancel() again from the worker's thread without blocking it - c12_worker_resolves_unlocked): "
                   "never early, deadline order, exactly once, nothing due withheld / worker never waits past the earliest deadline, "
                   "cancel true iff a pending sleep carries the id and then exactly one completes with the given exception, false = no-op, "
                   "stop-token cancellation terminates, destruction cancels everything — for every operation list, any number of workers, "
                   "and every heap implementation meeting the contract of std::push_heap/pop_heap (hence every tie-break; libstdc++'s "
                   "algorithms are proved to meet it); the model is tied to scheduler.h by running both on generated histories in four "
                   "modes (manual, start(awaitable), std::thread, thread_pool; virtual clock; in thread/pool mode also with the worker stepped "
-                  "one lock region at a time between public calls) and diffing every line; relational property oracles (multiset of "
+                  "one lock region at a time between public calls, and with sleeps whose awaiter is a make_promise callback that "
+                  "re-arms a timer / cancels another sleeper from the thread that resolves it) and diffing every line; relational property oracles (multiset of "
                   "pending sleeps, wake-up clock = time point, parked worker's deadline <= every pending time point) run on the traces")
     level_note = ("trusted: Lean kernel (axioms propext/Classical.choice/Quot.sound at most), the hand-written model, the differential "
                   "harness (sampling; virtual clock, interposed mutex/condition_variable), std::mutex/condition_variable/stop_token and the "
                   "promise/future layer (C01/C02). Thread interleavings are covered by the theorems at the granularity of the code's lock "
-                  "regions (every public method and every worker iteration is one region; cancel's out-of-lock promise resolution touches "
-                  "only the removed promise); on the real code they are exercised at the same granularity: the worker-lock-regions suite "
+                  "regions (every public method is one region, a worker iteration is the region that ends in wait_until or in the unlock "
+                  "in front of the resolution, plus one that only evaluates the loop condition; cancel's and the worker's out-of-lock "
+                  "promise resolution touches only the removed promise, and what a callback awaiter does there are further operations of "
+                  "the same list); on the real code they are exercised at the same granularity: the worker-lock-regions suite "
                   "stalls the real worker (std::thread and thread_pool) in front of every acquisition of the scheduler mutex and runs public "
                   "calls and ~scheduler there, and checks on every quiescent state that a parked worker's deadline is not later than any "
                   "pending sleep. Interleavings inside a lock region (they would be data races) and real blocking/wake-up latency of "
                   "wait_until (modelled as enabledness under virtual time) are not exercised. Destruction is one atomic step in the main "
                   "model; its stop handshake with the worker is a separate micro-step model (Stop.*, c12_stop_not_lost).")
     assumptions = ["the scheduler is not destroyed while another thread is inside one of its methods",
-                   "callbacks attached to sleep futures do not re-enter the scheduler while the worker holds its mutex",
                    "time points and identifiers are modelled as unbounded naturals (no clock overflow)"]
 
     def suites(self):
